@@ -199,6 +199,17 @@ PROPS = {
         "native": "p16",
         "explanation": "proved: the comment-attaching partition (junks) and their sort keys; bounded: the sort order by (type, key), stability end to end, input unchanged",
     },
+    "C07": {
+        "level": "other",
+        "level_text": "Mixed. Proved (contracts on the real middleware core, every library and block, every BlockMiddleware subclass): with allow_inplace_modification=False, BlockMiddleware.transform_block hands its per-type hook a fresh deep copy and never the block itself, and neither it nor BlockMiddleware.transform (which every block middleware inherits, and which the default write stack runs) modifies any object that existed when it was called -- the footprint of both copy-mode contracts is empty, so the frame obligations over every heap component are exactly 'the input library, its block list and indexes, every block, field, field list, value and metadata object are what they were'; transform returns a fresh Library built by Library(blocks) (one block per collected block, well formed). Bounded (native, labelled): that results share no mutable object with the input (aliasing through what hooks return), every shipped middleware class and option set end to end, LibraryMiddleware-based ones (the block sorter, string resolution in copy mode), write_string twice gives identical text, the format object.",
+        "level_note": STD_NOTE + "; the five per-type hooks enter through ASSUMED virtual contracts: a hook given a block allocated after the ghost mark `base` writes only into objects allocated after that mark (locality of hooks + A-COPY: everything reachable from a deep copy is allocated by the copy) and returns what the documentation allows (None, a Block, a list / tuple of allocated objects); A-EQ in Library.add.",
+        "modules": ["schema", "library", "model", "middleware"],
+        "functions": ["bibtexparser.middlewares.middleware.BlockMiddleware.transform_block#copy", "bibtexparser.middlewares.middleware.BlockMiddleware.transform#copy",
+                      LB + "__init__#blocks", LB + "add#list-quiet"],
+        "tags": ["C07", "C08"],
+        "native": "p07",
+        "explanation": "proved: copy-mode transform_block / transform of every block middleware write to no pre-existing object and hand hooks a deep copy (under the stated hook-locality assumption); bounded: no sharing between result and input, every shipped class end to end, library-level middlewares, write_string twice",
+    },
     "C10": {
         "level": "other",
         "level_text": "Mixed. Proved for all values and option combinations (contracts on the 7 real functions + 2 lemmas, 95 obligations): exactly one layer is stripped and its kind recorded, reuse restores the original, default enclosing, integer rule, no exception, frames. Bounded (native, labelled): an enclosed value written into an entry re-parses as one field (needs the grammar lemma).",
